@@ -71,7 +71,10 @@ def valid_case(draw, tier):
         # negative); only a file in which some id equals root - 1 would make the -1 marker ambiguous
         root = doc["rows"][0]["id"]
         reset = all(r["id"] != root - 1 for r in doc["rows"])
-    return {"doc": doc, "kind": kind, "encoding": encoding, "reset_index": reset}
+    return {"doc": doc, "kind": kind, "encoding": encoding, "reset_index": reset,
+            # the process has just failed to read another source (a malformed line, undecodable bytes, a missing file): the
+            # caller caught the error and goes on with this one
+            "failed_before": draw(st.sampled_from([None, None, None, "malformed", "undecodable", "missing", "malformed-twice"]))}
 
 
 def run_valid(case, ctx):
@@ -82,6 +85,27 @@ def run_valid(case, ctx):
     text = gen_swc.render(doc)
     rows = doc["rows"]
     extra_cols = ["ea", "eb"][: doc["n_req"]] or None
+    fb = case.get("failed_before")
+    if fb:
+        for _ in range(2 if fb == "malformed-twice" else 1):
+            if fb.startswith("malformed"):
+                bad = _source("1 1 0 0 0 1 -1\n2 3 1 0 0 1 1\nthis is not a row\n3 3 2 0 0 1 2\n", case["kind"], "utf-8", ctx, name="bad.swc")
+            elif fb == "undecodable":
+                bad_path = os.path.join(ctx.tmpdir, "bad.swc")
+                with open(bad_path, "wb") as f:
+                    f.write(b"1 1 0 0 0 1 -1\n# caf\xe9 \xff\xfe\n2 3 1 0 0 1 1\n")
+                bad = (io.BytesIO(open(bad_path, "rb").read()) if case["kind"] == "bytes" else bad_path, {"encoding": "utf-8"})
+            else:
+                bad = (os.path.join(ctx.tmpdir, "no-such-file.swc"), {})
+            try:
+                read_swc(bad[0], **bad[1])
+            except Exception:  # noqa - the failure itself is judged by the `malformed` sub-check
+                pass
+            try:
+                Tree.from_swc(bad[0] if not hasattr(bad[0], "seek") or bad[0].closed else os.path.join(ctx.tmpdir, "no-such-file.swc"))
+            except Exception:  # noqa
+                pass
+        ctx.cls("read-after-a-failed-read")
     src, kw = _source(text, case["kind"], case["encoding"], ctx)
     ctx.cls("src:" + case["kind"], "enc:" + case["encoding"], "family:" + doc["family"],
             "reset" if case["reset_index"] else "noreset")
@@ -526,7 +550,7 @@ def run_raw(case, ctx):
 
 SUBCHECKS = [
     Sub("valid", valid_case, run_valid, quick=900, thorough=6000, shards_quick=3,
-        required={"src:str": 10, "src:bytes": 10, "src:path": 5, "feat:exponent": 20, "feat:long-spelling": 30,
+        required={"src:str": 10, "src:bytes": 10, "src:path": 5, "feat:exponent": 20, "feat:long-spelling": 30, "read-after-a-failed-read": 150,
                   "feat:crlf": 5, "feat:unrequested-extra": 5, "requested-extras": 10,
                   "enc:utf-16": 2, "enc:detect": 2, "reset": 10, "family:raw": 10, "reset-with-arbitrary-ids": 8}),
     Sub("malformed", malformed_case, run_malformed, quick=900, thorough=6000, shards_quick=3,
